@@ -16,6 +16,7 @@ type job struct {
 	fuzzTime     [2]time.Duration
 	weight       int    // CPU slots this unit occupies (default 1)
 	arch         string // "386": run this job with the 32-bit build of the tests
+	child386     bool   // child processes of this job are the 32-bit build (no race detector there)
 	env          []string
 }
 
@@ -45,6 +46,7 @@ var props = map[string]*prop{
 		jobs: []job{
 			regress,
 			{name: "table-int32", run: "^TestC01_Table$", arch: "386", thoroughOnly: true},
+			{name: "random-int32", run: "^TestC01_Random$", arch: "386", shards: [2]int{2, 4}, checks: [2]int{5000, 100000}},
 			{name: "after-validation", run: "^TestC01_AfterValidation$"},
 			{name: "concurrent", run: "^TestC01_Concurrent$", weight: 8},
 			{name: "table", run: "^TestC01_Table$"},
@@ -56,6 +58,7 @@ var props = map[string]*prop{
 		level: "exploration",
 		jobs: []job{
 			regress,
+			{name: "table-int32", run: "^TestC02_Table$", arch: "386", shards: [2]int{2, 4}},
 			{name: "concurrent", run: "^TestC02_Concurrent$", weight: 8},
 			{name: "table", run: "^TestC02_Table$", shards: [2]int{4, 16}},
 			{name: "random", run: "^TestC02_Random$", shards: [2]int{2, 16}, checks: [2]int{15000, 400000}},
@@ -66,7 +69,8 @@ var props = map[string]*prop{
 		level: "exploration",
 		jobs: []job{
 			regress,
-			{name: "scan-int32", run: "^TestC03_Scan$", arch: "386", thoroughOnly: true, checks: [2]int{0, 60}},
+			{name: "scan-int32", run: "^TestC03_Scan$", arch: "386", checks: [2]int{10, 60}},
+			{name: "mutated-int32", run: "^TestC03_Mutated$", arch: "386", checks: [2]int{2500, 40000}},
 			{name: "concurrent", run: "^TestC03_Concurrent$", weight: 8},
 			{name: "scan", run: "^TestC03_Scan$", shards: [2]int{4, 16}, checks: [2]int{40, 250}},
 			{name: "mutated", run: "^TestC03_Mutated$", shards: [2]int{4, 16}, checks: [2]int{8000, 120000}},
@@ -80,6 +84,7 @@ var props = map[string]*prop{
 		jobs: []job{
 			{name: "regress", run: "^TestRegress$", race: true},
 			{name: "plans", run: "^TestC12_Plans$", shards: [2]int{16, 16}, checks: [2]int{15, 600}, race: true},
+			{name: "plans-386-children", run: "^TestC12_Plans$", shards: [2]int{4, 8}, checks: [2]int{10, 300}, race: true, child386: true},
 		},
 		assumptions: append([]string{"the Go race detector (happens-before monitor) reports every unsynchronised pair of accesses that a run executes; schedules are sampled, not enumerated"}, baseAssumptions...),
 	},
@@ -87,6 +92,7 @@ var props = map[string]*prop{
 		level: "exploration", exhaustive: false,
 		jobs: []job{
 			regress,
+			{name: "pairs-386-children", run: "^TestC13_Pairs$", shards: [2]int{4, 8}, child386: true},
 			{name: "pairs", run: "^TestC13_Pairs$", shards: [2]int{8, 16}},
 			{name: "histories", run: "^TestC13_Histories$", shards: [2]int{8, 16}, checks: [2]int{40, 1500}},
 			{name: "machine", run: "^TestC13_Machine$", shards: [2]int{4, 16}, checks: [2]int{600, 12000}},
@@ -97,6 +103,7 @@ var props = map[string]*prop{
 		level: "exploration",
 		jobs: []job{
 			regress,
+			{name: "grid-gomaxprocs1", run: "^TestC14_Grid$", env: []string{"GOMAXPROCS=1"}},
 			{name: "grid-int32", run: "^TestC14_Grid$", arch: "386"},
 			{name: "grid", run: "^TestC14_Grid$", shards: [2]int{4, 16}},
 			{name: "random", run: "^TestC14_Random$", shards: [2]int{4, 16}, checks: [2]int{6000, 200000}},
@@ -109,6 +116,7 @@ var props = map[string]*prop{
 		level: "exploration",
 		jobs: []job{
 			regress,
+			{name: "errors-int32", run: "^TestC15_Errors$", arch: "386", shards: [2]int{2, 4}, checks: [2]int{4000, 60000}},
 			{name: "concurrent", run: "^TestC15_Concurrent$", weight: 8},
 			{name: "errors", run: "^TestC15_Errors$", shards: [2]int{4, 16}, checks: [2]int{5000, 300000}},
 			{name: "fuzz", fuzz: "FuzzC15", thoroughOnly: true, fuzzTime: [2]time.Duration{0, 60 * time.Second}, weight: 16},
@@ -119,6 +127,8 @@ var props = map[string]*prop{
 		level: "exploration",
 		jobs: []job{
 			regress,
+			{name: "seed-gomaxprocs1", run: "^TestC04_Seed$", env: []string{"GOMAXPROCS=1"}, checks: [2]int{60, 1000}},
+			{name: "seed-int32", run: "^TestC04_Seed$", arch: "386", shards: [2]int{2, 4}, checks: [2]int{120, 2000}},
 			{name: "concurrent", run: "^TestC04_Concurrent$", weight: 8},
 			{name: "seed", run: "^TestC04_Seed$", shards: [2]int{8, 16}, checks: [2]int{200, 5000}},
 		},
@@ -128,6 +138,8 @@ var props = map[string]*prop{
 		level: "exploration",
 		jobs: []job{
 			regress,
+			{name: "sweep-int32", run: "^TestC10_WordSweep$", arch: "386", shards: [2]int{2, 4}},
+			{name: "respell-int32", run: "^TestC10_Respell$", arch: "386", checks: [2]int{2500, 30000}},
 			{name: "concurrent", run: "^TestC10_Concurrent$", weight: 8},
 			{name: "sweep", run: "^TestC10_WordSweep$", shards: [2]int{2, 10}},
 			{name: "respell", run: "^TestC10_Respell$", shards: [2]int{4, 16}, checks: [2]int{4000, 100000}},
@@ -139,6 +151,8 @@ var props = map[string]*prop{
 		level: "exploration",
 		jobs: []job{
 			regress,
+			{name: "sweep-int32", run: "^TestC11_WordSweep$", arch: "386", shards: [2]int{8, 8}, thoroughOnly: true},
+			{name: "respell-int32", run: "^TestC11_Respell$", arch: "386", shards: [2]int{2, 4}, checks: [2]int{100, 1500}},
 			{name: "concurrent", run: "^TestC11_Concurrent$", weight: 8},
 			{name: "sweep", run: "^TestC11_WordSweep$", shards: [2]int{12, 16}},
 			{name: "respell", run: "^TestC11_Respell$", shards: [2]int{4, 16}, checks: [2]int{150, 3000}},
@@ -149,6 +163,7 @@ var props = map[string]*prop{
 		level: "exploration",
 		jobs: []job{
 			regress,
+			{name: "table-int32", run: "^TestC05_Table$", arch: "386", shards: [2]int{2, 4}},
 			{name: "concurrent", run: "^TestC05_Concurrent$", weight: 8},
 			{name: "table", run: "^TestC05_Table$", shards: [2]int{2, 16}},
 			{name: "flips", run: "^TestC05_Flips$", shards: [2]int{4, 16}, checks: [2]int{100, 5000}},
@@ -159,6 +174,7 @@ var props = map[string]*prop{
 		level: "fault_enumeration", exhaustive: true,
 		jobs: []job{
 			regress,
+			{name: "grid-int32", run: "^TestC06_Grid$", arch: "386", shards: [2]int{2, 4}},
 			{name: "concurrent", run: "^TestC06_Concurrent$", weight: 8},
 			{name: "grid", run: "^TestC06_Grid$", shards: [2]int{2, 8}},
 			{name: "random", run: "^TestC06_Random$", shards: [2]int{2, 16}, checks: [2]int{10000, 200000}},
@@ -180,6 +196,8 @@ var props = map[string]*prop{
 		level: "exploration", exhaustive: true,
 		jobs: []job{
 			regress,
+			{name: "list-int32", run: "^TestC08_List$", arch: "386"},
+			{name: "back-int32", run: "^TestC08_Back$", arch: "386", shards: [2]int{4, 8}},
 			{name: "list", run: "^TestC08_List$", shards: [2]int{1, 10}},
 			{name: "source", run: "^TestC08_Source$"},
 			{name: "shared", run: "^TestC08_Shared$", shards: [2]int{2, 16}, checks: [2]int{1500, 40000}},
